@@ -12,7 +12,12 @@ pub(crate) use loom::{
 };
 
 #[cfg(not(feature = "loom"))]
+#[cfg(not(rarena_verif))]
 pub(crate) use core::sync::atomic::*;
+
+#[cfg(not(feature = "loom"))]
+#[cfg(rarena_verif)]
+pub(crate) use crate::verif::atomic::*;
 
 #[cfg(feature = "loom")]
 pub(crate) use loom::sync::atomic::*;
